@@ -5,6 +5,7 @@ Property theorems only.
 import ConfModel.Lemmas.WireChecks
 import ConfModel.Lemmas.ConnectJson
 import ConfModel.Generated.C13Facts
+import ConfModel.Spec.ContentCoding
 namespace ConfModel.Props.C13
 open ConfModel.WireChecks ConfModel.WireChecksSpec
 open ConfModel.ServerTimeout (Bytes parseInt)
@@ -764,5 +765,49 @@ example :
     endStreamOK noDbg (.obj [(bs "metadata", .obj [(bs "x-a", .arr [.str (bs "v")])])]) = true := by decide
 
 end ConnectJSON
+
+/-! ## Compressed payloads: which coding a header value announces
+
+The examiners of this property see a payload only after glue code picked a decompressor from a
+header value.  The compression algorithms are not modelled (the correspondence run drives the
+real exchange with the repository's six compressors, see `c13z.go`); what is stated here is the
+demand the driver makes: the announced coding depends on the header value only up to ASCII case
+(RFC 9110 §8.4.1), and every spelling of the six names announces that coding. -/
+section Coding
+open ConfModel.ContentCoding
+
+/-- Two header values that differ only in ASCII case announce the same coding. -/
+theorem coding_case_insensitive (a b : String) (h : lower a = lower b) :
+    codingOf (some a) = codingOf (some b) := by
+  simp only [codingOf, h]
+
+/-- …hence `payloadReachesExaminer`, the driver's demand, does not depend on the spelling. -/
+theorem demand_case_insensitive (stream flag : Bool) (applied : Nat) (a b : String)
+    (h : lower a = lower b) :
+    payloadReachesExaminer stream flag applied (some a) = payloadReachesExaminer stream flag applied (some b) := by
+  simp only [payloadReachesExaminer, coding_case_insensitive a b h]
+
+example : lower "GZip" = lower "gzip" := by decide
+
+/-- Lower, title and upper case of each of the six names announce it; absent and empty
+announce identity; other names announce nothing known. -/
+theorem coding_names :
+    (codings.map fun n => codingOf (some n)) = [some 0, some 1, some 2, some 3, some 4, some 5] ∧
+    (["IDENTITY", "GZIP", "BR", "ZSTD", "DEFLATE", "SNAPPY"].map fun n => codingOf (some n))
+      = [some 0, some 1, some 2, some 3, some 4, some 5] ∧
+    (["Identity", "Gzip", "Br", "Zstd", "Deflate", "Snappy"].map fun n => codingOf (some n))
+      = [some 0, some 1, some 2, some 3, some 4, some 5] ∧
+    codingOf none = some 0 ∧ codingOf (some "") = some 0 ∧
+    codingOf (some "gzipx") = none ∧ codingOf (some "x-gzip") = none := by decide
+
+/-- An end-stream message without the compressed flag is plain whatever was negotiated;
+with the flag (and for a unary body) the announced coding must be the applied one. -/
+theorem demand_cases (applied : Nat) (enc : Option String) :
+    payloadReachesExaminer true false applied enc = true ∧
+    payloadReachesExaminer true true applied enc = (codingOf enc == some applied) ∧
+    payloadReachesExaminer false false applied enc = (codingOf enc == some applied) := by
+  simp [payloadReachesExaminer]
+
+end Coding
 
 end ConfModel.Props.C13
